@@ -26,10 +26,8 @@ import (
 func main() { Main("C20", runC20) }
 
 const (
-	netTimeout = 1200 * time.Millisecond // NetTimeout override: read deadline while playing (and, after the fix, during the handshake)
 	heartbeat  = 150 * time.Millisecond
 	settle     = 15 * time.Second // generous bound for "eventually" conditions; never reached on a healthy run
-	hangAfter  = 6 * time.Second  // GetOrCreate not back after 5 × NetTimeout: reported as a hang
 )
 
 // ---- scenario ----
@@ -129,13 +127,28 @@ type testConsumer struct {
 func (c *testConsumer) Consume(p media.Pack) { atomic.AddInt32(&c.n, 1) }
 func (c *testConsumer) Close() error         { atomic.StoreInt32(&c.closed, 1); return nil }
 
+// the "eventually" bound shrinks once several waits have run into it: on a healthy tree it is never
+// reached, on a broken one the run must still end in reasonable time
+var timeouts int32
+
+func settleNow() time.Duration {
+	if atomic.LoadInt32(&timeouts) >= 3 {
+		return 2500 * time.Millisecond
+	}
+	return settle
+}
+
 func waitFor(d time.Duration, cond func() bool) bool {
+	if d == settle {
+		d = settleNow()
+	}
 	deadline := time.Now().Add(d)
 	for {
 		if cond() {
 			return true
 		}
 		if time.Now().After(deadline) {
+			atomic.AddInt32(&timeouts, 1)
 			return false
 		}
 		time.Sleep(2 * time.Millisecond)
@@ -626,9 +639,113 @@ func classOf(verdict string) string {
 	return verdict
 }
 
+// timing of one phase: the NetTimeout override and the derived hang watchdog
+var hangAfter = 12 * time.Second
+
+func setPhase(nt time.Duration) {
+	config.VerifSetNetTimeouts(nt, heartbeat)
+	hangAfter = 4*nt + 2*time.Second // the requester not back after 4 × NetTimeout: reported as a hang
+}
+
+func hasSilence(s *scenario) bool {
+	for _, t := range s.script {
+		if t == "sil" {
+			return true
+		}
+	}
+	return len(s.play) > 0 && s.play[len(s.play)-1] == "sil"
+}
+
+func obsLine(s *scenario, o *observation) string {
+	leak := "0"
+	for _, n := range o.notes {
+		if strings.HasPrefix(n, "leak:") {
+			leak = "1"
+		}
+	}
+	ob := o.String()
+	if strings.HasPrefix(o.out, "status-") { // judged by the harness: a failed pull must be answered 404
+		ob = strings.Replace(ob, "out="+o.out, "out=nil", 1)
+	}
+	return "c20 pull " + s.line() + " | " + ob + " leak=" + leak
+}
+
+func implKeyOf(o *observation) string {
+	out := o.out
+	if strings.HasPrefix(out, "status-") {
+		out = "nil"
+	}
+	return fmt.Sprintf("out=%s;reqs=%s;closed=%s;reg=%s;delivered=%d;clean=%s", out, strings.Join(o.reqs, ","), B01(o.closed), B01(o.reg), o.delivered, B01(o.clean))
+}
+
+// failing: does the driver's answer disagree with the observation, or does the spec reject it?
+func failing(o *observation, m map[string]string) bool {
+	return implKeyOf(o) != m["model"] || m["verdict"] != "ok" || o.extraBad || strings.HasPrefix(o.out, "status-")
+}
+
+// runBatches runs the scenarios idx (indices into scs) in parallel batches; batch-level leak check
+func runBatches(scs []*scenario, idx []int, obs []*observation, tag string) {
+	base := stats.RtspConns.GetSample().Active
+	const batch = 32
+	leakPinned := false
+	for lo := 0; lo < len(idx); lo += batch {
+		hi := lo + batch
+		if hi > len(idx) {
+			hi = len(idx)
+		}
+		var wg sync.WaitGroup
+		for _, i := range idx[lo:hi] {
+			wg.Add(1)
+			go func(i int) {
+				defer wg.Done()
+				obs[i] = runScenario(scs[i], fmt.Sprintf("/c20/%s%d", tag, i))
+			}(i)
+		}
+		wg.Wait()
+		if leakPinned {
+			continue // a leak is already pinned on concrete scenarios; later batches cannot be judged any more
+		}
+		okc := waitFor(6*time.Second, func() bool { return stats.RtspConns.GetSample().Active == base })
+		okg := waitFor(6*time.Second, func() bool { n, _ := pullGoroutines(); return n == 0 })
+		if !okc || !okg {
+			// pin the leak on single scenarios: re-run the batch one by one (stop at the third culprit)
+			culprits := 0
+			for _, i := range idx[lo:hi] {
+				if culprits >= 3 {
+					break
+				}
+				if runAlone(scs[i], fmt.Sprintf("/c20/%sr%d", tag, i), obs, i) {
+					culprits++
+				}
+			}
+			if culprits == 0 {
+				obs[idx[lo]].notes = append(obs[idx[lo]].notes, "leak:batch")
+			}
+			leakPinned = true
+			base = stats.RtspConns.GetSample().Active
+		}
+	}
+}
+
+// runAlone: one scenario with nothing else going on, with its own leak check; true if it leaks
+func runAlone(s *scenario, path string, obs []*observation, i int) bool {
+	b0 := stats.RtspConns.GetSample().Active
+	g0, _ := pullGoroutines()
+	o := runScenario(s, path)
+	c1 := waitFor(4*time.Second, func() bool { return stats.RtspConns.GetSample().Active == b0 })
+	g1 := waitFor(4*time.Second, func() bool { n, _ := pullGoroutines(); return n <= g0 })
+	if !c1 {
+		o.notes = append(o.notes, "leak:conncount")
+	}
+	if !g1 {
+		o.notes = append(o.notes, "leak:goroutine")
+	}
+	obs[i] = o
+	return !c1 || !g1
+}
+
 func runC20(c *Ctx) {
-	config.VerifSetNetTimeouts(netTimeout, heartbeat)
-	c.Res.Rule = "case = one pull scenario (route URL with/without credentials, camera script: one response kind per received request, SDP kind, play events + terminal event) run through media.GetOrCreate against a fake camera on a loopback listener, or one pair of simultaneous first requests; distinct by the scenario line; non-trivial when the camera was dialled and answered at least one request"
+	c.Res.Rule = "case = one pull scenario (route URL with/without credentials, camera script: one response kind per received request, SDP kind, play events + terminal event; requester = media.GetOrCreate or a real RTSP session) against a fake camera on a loopback listener, or one pair of simultaneous first requests; distinct by the scenario line; non-trivial when the camera was dialled and answered at least one request.  A disagreement is reported only if it reproduces when the scenario is re-run alone with a generous timeout"
 	var scs []*scenario
 	for _, l := range c.CorpusLines() {
 		f := strings.Fields(l)
@@ -636,69 +753,32 @@ func runC20(c *Ctx) {
 			scs = append(scs, parseScenario(KV(strings.Join(f[2:], " "))))
 		}
 	}
-	nCorpus := len(scs)
 	scs = append(scs, systematic()...)
-	for i, n := 0, c.Budget(700, 6000); i < n; i++ {
+	for i, n := 0, c.Budget(600, 6000); i < n; i++ {
 		scs = append(scs, genScenario(c.Rng))
 	}
+	var quiet, silent []int
 	for i, s := range scs {
 		s.id = i
+		if hasSilence(s) {
+			silent = append(silent, i)
+		} else {
+			quiet = append(quiet, i)
+		}
 	}
-	_ = nCorpus
-	base := stats.RtspConns.GetSample().Active
 	obs := make([]*observation, len(scs))
-	const batch = 32
-	for lo := 0; lo < len(scs); lo += batch {
-		hi := lo + batch
-		if hi > len(scs) {
-			hi = len(scs)
-		}
-		var wg sync.WaitGroup
-		for i := lo; i < hi; i++ {
-			wg.Add(1)
-			go func(i int) {
-				defer wg.Done()
-				obs[i] = runScenario(scs[i], fmt.Sprintf("/c20/s%d", i))
-			}(i)
-		}
-		wg.Wait()
-		// batch-level: connection counter and goroutines are back where they were
-		okc := waitFor(4*time.Second, func() bool { return stats.RtspConns.GetSample().Active == base })
-		okg := waitFor(4*time.Second, func() bool { n, _ := pullGoroutines(); return n == 0 })
-		if !okc || !okg {
-			// pin the leak on single scenarios: re-run the batch one by one
-			for i := lo; i < hi; i++ {
-				b0 := stats.RtspConns.GetSample().Active
-				g0, _ := pullGoroutines()
-				o := runScenario(scs[i], fmt.Sprintf("/c20/r%d", i))
-				c1 := waitFor(3*time.Second, func() bool { return stats.RtspConns.GetSample().Active == b0 })
-				g1 := waitFor(3*time.Second, func() bool { n, _ := pullGoroutines(); return n <= g0 })
-				if !c1 {
-					o.notes = append(o.notes, "leak:conncount")
-				}
-				if !g1 {
-					o.notes = append(o.notes, "leak:goroutine")
-				}
-				obs[i] = o
-			}
-			base = stats.RtspConns.GetSample().Active
-		}
-	}
+	// phase A: no scenario waits for a timeout, so the timeout can be long (no false alarm on a slow machine)
+	setPhase(12 * time.Second)
+	runBatches(scs, quiet, obs, "a")
+	// phase B: the scenarios in which the camera goes silent: the client's own timeout has to expire
+	setPhase(2500 * time.Millisecond)
+	runBatches(scs, silent, obs, "b")
 	lines := make([]string, len(scs))
 	for i, s := range scs {
-		leak := "0"
-		for _, n := range obs[i].notes {
-			if strings.HasPrefix(n, "leak:") {
-				leak = "1"
-			}
-		}
-		ob := obs[i].String()
-		if strings.HasPrefix(obs[i].out, "status-") { // judged here: a failed pull must be answered 404
-			ob = strings.Replace(ob, "out="+obs[i].out, "out=nil", 1)
-		}
-		lines[i] = "c20 pull " + s.line() + " | " + ob + " leak=" + leak
+		lines[i] = obsLine(s, obs[i])
 	}
 	// simultaneous first requests (one at a time: they use the global verif hook)
+	setPhase(12 * time.Second)
 	nDual := c.Budget(6, 30)
 	dualObs := make([]string, nDual)
 	dualNotes := make([][]string, nDual)
@@ -707,6 +787,30 @@ func runC20(c *Ctx) {
 		lines = append(lines, "c20 dual")
 	}
 	outs := c.Drive(lines)
+	// confirmation: whatever failed is run again, alone, with a generous timeout; only what fails again is reported
+	var again []int
+	for i := range scs {
+		if failing(obs[i], KV(outs[i])) {
+			again = append(again, i)
+		}
+	}
+	if len(again) > 0 {
+		c.CountN("first-run-disagreements-rechecked", len(again))
+		if len(again) > 40 {
+			again = again[:40]
+		}
+		setPhase(6 * time.Second)
+		var l2 []string
+		for _, i := range again {
+			runAlone(scs[i], fmt.Sprintf("/c20/c%d", i), obs, i)
+			l2 = append(l2, obsLine(scs[i], obs[i]))
+		}
+		o2 := c.Drive(l2)
+		for k, i := range again {
+			lines[i], outs[i] = l2[k], o2[k]
+		}
+		// the ones beyond the first 40 keep their first observation (they are reported if they failed)
+	}
 	for i := 0; i < nDual; i++ {
 		m := KV(outs[len(scs)+i])
 		caseLine := fmt.Sprintf("c20 dual # run %d, first Regist paused=%v", i, i%2 == 1)
@@ -722,12 +826,11 @@ func runC20(c *Ctx) {
 	}
 	for i, s := range scs {
 		o := obs[i]
-		if strings.HasPrefix(o.out, "status-") {
-			c.Find(Finding{Kind: "oracle", Class: "failed-pull-not-answered-404", Case: "c20 pull " + s.line(), Impl: o.String(), Spec: "RTSP 404 Not Found"})
-			o.out = "nil"
-		}
 		m := KV(outs[i])
 		caseLine := "c20 pull " + s.line()
+		if strings.HasPrefix(o.out, "status-") {
+			c.Find(Finding{Kind: "oracle", Class: "failed-pull-not-answered-404", Case: caseLine, Impl: o.String(), Spec: "RTSP 404 Not Found"})
+		}
 		c.Eval(caseLine, o.dialled && len(o.reqs) > 0)
 		c.Count("out-" + o.out)
 		c.Count(fmt.Sprintf("requests-%02d", len(o.reqs)))
@@ -739,6 +842,9 @@ func runC20(c *Ctx) {
 			c.Count("resp-" + t)
 		}
 		c.Count("sdp-" + s.sdp)
+		if s.rtsp {
+			c.Count("requester-rtsp-session")
+		}
 		if !o.dialled {
 			c.Count("not-dialled")
 		}
@@ -749,8 +855,7 @@ func runC20(c *Ctx) {
 		if i%(len(scs)/8+1) == 0 {
 			c.Sample(lines[i] + " => " + outs[i])
 		}
-		implKey := fmt.Sprintf("out=%s;reqs=%s;closed=%s;reg=%s;delivered=%d;clean=%s", o.out, strings.Join(o.reqs, ","), B01(o.closed), B01(o.reg), o.delivered, B01(o.clean))
-		if implKey != m["model"] {
+		if implKey := implKeyOf(o); implKey != m["model"] {
 			c.Find(Finding{Kind: "corr", Class: "pull-scenario", Case: caseLine, Impl: implKey, Model: m["model"], Detail: strings.Join(o.notes, "; ")})
 		}
 		if o.extraBad {
@@ -759,10 +864,25 @@ func runC20(c *Ctx) {
 		if o.extra > 0 {
 			c.Count("keepalive-seen")
 		}
+		if kaExpected(s) && o.out == "stream" && o.extra == 0 {
+			c.Find(Finding{Kind: "oracle", Class: "keepalive-missing", Case: caseLine, Impl: o.String(), Spec: "an OPTIONS keep-alive after the heart-beat interval", Detail: strings.Join(o.notes, "; ")})
+		}
 		if v := m["verdict"]; v != "ok" {
 			c.Find(Finding{Kind: "oracle", Class: classOf(v), Case: caseLine, Impl: o.String(), Spec: v, Detail: strings.Join(o.notes, "; ")})
 		}
 	}
+}
+
+// kaExpected: the play events let the heart-beat interval pass and then deliver something, twice
+// (the first keep-alive may race with the terminal event)
+func kaExpected(s *scenario) bool {
+	n := 0
+	for i, ev := range s.play {
+		if ev == "ka" && i+2 < len(s.play) {
+			n++
+		}
+	}
+	return n >= 2
 }
 
 var _ = os.Getenv
